@@ -351,7 +351,7 @@ def r14_3(run):
         asserts = [n for n, st in cfg.stmt.items() if isinstance(st, ast.Assert) and isinstance(st.test, ast.Compare)
                    and {norm(st.test.left), norm(st.test.comparators[0])} == {f"{g}.shape", f"{var}.shape"}
                    and isinstance(st.test.ops[0], ast.Eq)]
-        ok = any(cfg.dominates(a, ns) and not _redefined_between(cfg, g, a, ns) for a in asserts)
+        ok = any(cfg.dominates(a, ns) and not _redefined_between(cfg, g, a, ns, like=f"{var}.data") for a in asserts)
         run.ob("R14.3", loc(fi, s), fi.short, f"shape of `{norm(s)[:40]}`", ok,
                f"dominated by `assert {g}.shape == {var}.shape` with no shape-changing redefinition in between" if ok else
                "a gradient whose shape differs from the tensor's can be stored")
@@ -461,7 +461,7 @@ def r14_3(run):
                    "the copy's gradient can disagree with the copy's data in shape or dtype")
 
 
-def _redefined_between(cfg, name, a, b) -> bool:
+def _redefined_between(cfg, name, a, b, like=None) -> bool:
     """Is there a definition of `name`, on a path a->b, that may change its shape? (astype / np.copy keep it)"""
     from ..cfg import stmt_defines
     fw = cfg.reachable_from(a)
@@ -473,6 +473,12 @@ def _redefined_between(cfg, name, a, b) -> bool:
             if not cfg.dominates(a, n):
                 continue
             v = getattr(s, "value", None)
+            if isinstance(v, ast.Name) and v.id != name and like is not None:
+                # name = buf with buf = *_like(<var>.data) filled from `name`: the buffer has the tensor's shape by construction
+                from .util import buffer_fill
+                bf = buffer_fill(cfg, v.id, n)
+                if bf is not None and norm(bf[1]) == like and isinstance(bf[3], ast.Name) and bf[3].id == name:
+                    continue
             if not _shape_preserving(v, name, cfg=cfg):
                 return True
     return False
